@@ -9,10 +9,13 @@ QN(p, q) == LET g == GCD(p, q)
                 s == IF q < 0 THEN -1 ELSE 1
             IN IF p = 0 THEN <<0, 1>> ELSE <<s * (p \div g), s * (q \div g)>>
 QI(n) == <<n, 1>>
-QAdd(x, y) == QN(x[1]*y[2] + y[1]*x[2], x[2]*y[2])
-QSub(x, y) == QN(x[1]*y[2] - y[1]*x[2], x[2]*y[2])
-QMul(x, y) == QN(x[1]*y[1], x[2]*y[2])
-QDiv(x, y) == QN(x[1]*y[2], x[2]*y[1])          \* y # 0 (division by zero is a TLC error)
+\* operations reduce before they multiply (least common denominator, cross-cancellation) to stay inside TLC's 32-bit integers
+QAdd(x, y) == LET g == GCD(x[2], y[2]) IN QN(x[1] * (y[2] \div g) + y[1] * (x[2] \div g), (x[2] \div g) * y[2])
+QSub(x, y) == QAdd(x, <<0 - y[1], y[2]>>)
+QMul(x, y) == LET g1 == GCD(x[1], y[2])  g2 == GCD(y[1], x[2]) IN
+              IF x[1] = 0 \/ y[1] = 0 THEN <<0, 1>>
+              ELSE QN((x[1] \div g1) * (y[1] \div g2), (x[2] \div g2) * (y[2] \div g1))
+QDiv(x, y) == IF y[1] > 0 THEN QMul(x, <<y[2], y[1]>>) ELSE QMul(x, <<0 - y[2], 0 - y[1]>>)   \* y # 0 (division by zero is a TLC error)
 QLt(x, y) == x[1]*y[2] < y[1]*x[2]
 QLe(x, y) == x[1]*y[2] <= y[1]*x[2]
 QFloor(x) == x[1] \div x[2]                      \* TLA+ \div floors
